@@ -275,6 +275,7 @@ def run_r3_r4(repo: Repo, res: Result) -> None:
             mixes: dict[tuple, set] = {}
             incomplete_text: dict[str, set] = {}
             tops: set = set()
+            lost: set = set()
             lines_seen = 0
             for world in (True, False):
                 it = Interp(repo)
@@ -296,6 +297,7 @@ def run_r3_r4(repo: Repo, res: Result) -> None:
                 w = it.has_top(out)
                 if w:
                     tops.add(w)
+                lost |= set(it.tops)
                 lines = it.scalars(out)
                 lines_seen += len(lines)
                 got = set()
@@ -330,8 +332,10 @@ def run_r3_r4(repo: Repo, res: Result) -> None:
                         if lacks:
                             incomplete_text.setdefault(", ".join(lacks), set()).update(which)
             head = f"{cls.module.relpath}::{cls.name}.{entry.name}"
-            if tops or not lines_seen:
-                res.undecide("C03.R3", f"{head}::report", f"the abstract evaluation of the message generator lost track ({'; '.join(sorted(tops)[:2]) or 'no lines produced'})", where(entry, entry.node))
+            absent = [f for f in fields if not rendered[f]] or incomplete_text
+            if tops or not lines_seen or (absent and lost):
+                # something is missing from the abstract report, but the interpreter met constructs it does not model: no verdict
+                res.undecide("C03.R3", f"{head}::report", f"the abstract evaluation of the message generator lost track ({'; '.join(sorted(tops | lost)[:2]) or 'no lines produced'})", where(entry, entry.node))
                 continue
             for f in fields:
                 n3 += 1
@@ -427,9 +431,11 @@ def run_r5(repo: Repo, res: Result) -> None:
             partial: list[str] = []
             used: set = set()
             for c in calls:
-                for a in c["args"]:
+                for ai, a in enumerate(c["args"]):
+                    cn = c["node"]
+                    texts = [norm(x, 50) for x in cn.args] + [norm(k.value, 50) for k in cn.keywords] if isinstance(cn, ast.Call) else []
                     if not a:
-                        extra.append(f"an argument without provenance in `{norm(c['node'], 80)}`")
+                        extra.append(f"`{texts[ai] if ai < len(texts) else '?'}` (neither the graph, nor the current key, nor one of the complete module sets) in `{norm(cn, 80)}`")
                         continue
                     for sh in a:
                         if isinstance(sh, Opaque) or (isinstance(sh, Const) and sh.value is None):
